@@ -1130,6 +1130,59 @@ func checkReadBytesQueued(c *Ctx, p *Prog, rule string) {
 							bad = "the send is decided by the read's error (" + p.pos(g.Cond.Pos()) + "): bytes returned together with an error are dropped"
 						}
 					}
+					// … nor skipped by a branch on the error taken before the send is reached (an early
+					// `continue` for errors the reader gets over)
+					if bad == "" && eVal != nil {
+						readBlk, sendBlk := rd.Block(), in.Block()
+						reachSend := func(from *ssa.BasicBlock) bool {
+							seen := map[*ssa.BasicBlock]bool{}
+							var walk func(b *ssa.BasicBlock) bool
+							walk = func(b *ssa.BasicBlock) bool {
+								if b == sendBlk {
+									return true
+								}
+								if seen[b] || b == readBlk {
+									return false
+								}
+								seen[b] = true
+								for _, sc := range b.Succs {
+									if walk(sc) {
+										return true
+									}
+								}
+								return false
+							}
+							return walk(from)
+						}
+						seen := map[*ssa.BasicBlock]bool{}
+						var scan func(b *ssa.BasicBlock)
+						scan = func(b *ssa.BasicBlock) {
+							if seen[b] || b == sendBlk {
+								return
+							}
+							seen[b] = true
+							if !reachSend(b) {
+								return // past the point where the bytes could still be queued
+							}
+							if iff, isIf := b.Instrs[len(b.Instrs)-1].(*ssa.If); isIf && dependsOn(iff.Cond, eVal, 4) {
+								for _, sc := range b.Succs {
+									if !reachSend(sc) {
+										bad = "a branch on the read's error at " + p.pos(iff.Cond.Pos()) + " leaves this round before the bytes are queued"
+									}
+								}
+							}
+							for _, sc := range b.Succs {
+								if sc != readBlk {
+									scan(sc)
+								}
+							}
+						}
+						if readBlk != sendBlk {
+							for _, sc := range readBlk.Succs {
+								scan(sc)
+							}
+						}
+					}
 					c.Check(bad == "", rule, key, p.pos(in.Pos()), "chunk[:n] is queued whatever error the read reported along with it "+bad)
 				}
 			})
